@@ -310,6 +310,9 @@ func handle(f []string) string {
 		cur = append(cur, t)
 	}
 	segs = append(segs, cur)
+	if strings.HasPrefix(f[0], "sidx") {
+		return handleSidx(segs[1:])
+	}
 	var schemas []*measure.VSchema
 	for _, t := range segs[0] {
 		i := strings.IndexByte(t, '=')
